@@ -1600,6 +1600,111 @@ func methodOfNamed(c *core.Ctx, n *types.Named, name string) *ssa.Function {
 }
 
 func init() {
+	register(&Rule{ID: "TS-EXPIRE-ATOMIC", Floor: 1,
+		Doc: "in the cache's prune functions the decision that an entry is to go (its last-use time compared with the cut-off, or the sort by last use) and the removal of that entry are one critical section: on no path is the cache's mutex released after the decision and the entry deleted without the decision having been made again — otherwise a Get that succeeds in between refreshes the entry and still loses it",
+		Run: func(c *core.Ctx) {
+			isCacheMu := func(call ssa.CallInstruction, names ...string) bool {
+				for _, n := range names {
+					if an.IsMethod(call, "sync", "Mutex", n) || an.IsMethod(call, "sync", "RWMutex", n) {
+						if len(call.Common().Args) > 0 {
+							if fa, ok := call.Common().Args[0].(*ssa.FieldAddr); ok {
+								if nt := an.NamedOf(an.Deref(fa.X.Type())); nt != nil && nt.Obj().Pkg() != nil && strings.HasSuffix(nt.Obj().Pkg().Path(), "/internal/cache") {
+									return true
+								}
+							}
+						}
+					}
+				}
+				return false
+			}
+			isUsedCompare := func(v ssa.Value) bool {
+				call, _ := an.CallOf(an.Strip(v))
+				if call == nil || !(an.IsMethod(call, "time", "Time", "Before") || an.IsMethod(call, "time", "Time", "After")) {
+					return false
+				}
+				for _, a := range call.Call.Args {
+					if _, p := deepAccessPath(a); len(p) > 0 && p[len(p)-1] == "used" {
+						return true
+					}
+				}
+				return false
+			}
+			seen := map[string]bool{}
+			for _, fn := range c.P.Funcs("internal/cache") {
+				if fn.TypeParams().Len() > 0 && len(fn.TypeArgs()) == 0 {
+					continue
+				}
+				var deletes []ssa.Instruction
+				an.Calls(fn, func(call ssa.CallInstruction) {
+					if bi, ok := call.Common().Value.(*ssa.Builtin); ok && bi.Name() == "delete" {
+						deletes = append(deletes, call)
+					}
+				})
+				decides := false
+				for _, b := range fn.Blocks {
+					if ifi := an.BlockIf(b); ifi != nil {
+						base, _ := an.CondBase(ifi.Cond)
+						if isUsedCompare(base) {
+							decides = true
+						}
+					}
+				}
+				an.Calls(fn, func(call ssa.CallInstruction) {
+					if an.IsFunc(call, "sort", "Sort") || an.IsFunc(call, "sort", "Slice") || an.IsFunc(call, "sort", "SliceStable") || an.IsFunc(call, "slices", "SortFunc") {
+						decides = true
+					}
+				})
+				if len(deletes) == 0 || !decides {
+					continue
+				}
+				name := c.P.FuncName(fn)
+				if fn.Origin() != nil {
+					name = c.P.FuncName(fn.Origin())
+				}
+				key := "decide-and-remove:" + kn(name)
+				if seen[key] {
+					continue
+				}
+				seen[key] = true
+				type st struct{ decided, released bool }
+				bad := ""
+				an.Paths(an.PathSpec[st]{Fn: fn, Init: st{},
+					Instr: func(s st, in ssa.Instruction) []st {
+						if call, ok := in.(ssa.CallInstruction); ok {
+							if _, isDefer := in.(*ssa.Defer); isDefer {
+								return []st{s}
+							}
+							switch {
+							case an.IsFunc(call, "sort", "Sort") || an.IsFunc(call, "sort", "Slice") || an.IsFunc(call, "sort", "SliceStable") || an.IsFunc(call, "slices", "SortFunc"):
+								return []st{{decided: true}}
+							case isCacheMu(call, "Unlock", "RUnlock"):
+								if s.decided {
+									s.released = true
+								}
+							}
+							for _, d := range deletes {
+								if in == d && s.decided && s.released && bad == "" {
+									bad = fmt.Sprintf("the entry is deleted at %s although the cache's mutex was released after the decision to remove it and the decision was not made again", c.P.Pos(in.Pos()))
+								}
+							}
+						}
+						return []st{s}
+					},
+					Edge: func(s st, from *ssa.BasicBlock, succ int) (st, bool) {
+						if ifi := an.BlockIf(from); ifi != nil {
+							base, _ := an.CondBase(ifi.Cond)
+							if isUsedCompare(base) {
+								return st{decided: true}, true // the decision, made (again) now
+							}
+						}
+						return s, true
+					}})
+				c.Check(bad == "", key, fn.Pos(), "%s", map[bool]string{true: "decision and removal lie in one hold of the cache's mutex", false: bad + ": a Get that succeeded while the mutex was free refreshed the entry and loses it all the same"}[bad == ""])
+			}
+			if len(seen) == 0 {
+				c.Unresolved("prune-functions", "no function of the cache package that decides on last use and deletes entries found")
+			}
+		}})
 	register(&Rule{ID: "TS-PRUNE-TRIGGER", Floor: 1,
 		Doc: "an insertion beyond the count limit starts the count pruner: in the cache's insert function the start of the pruner (go statement or call of a cache method that deletes entries) depends only on the count comparison (limit fields and len(entries)); a further condition on a boolean ‘pruner busy’ field is accepted only if the pruner clears that field on every path to each of its returns (or in a deferred function) — a flag left set by an early return disables count pruning for good",
 		Run: func(c *core.Ctx) {
